@@ -1,4 +1,6 @@
 import HT.Model.Decoder
+import HT.Model.Packet
+import HT.Model.Canary
 /-!
 Line-protocol driver: one case per input line, `<model> <args…>`; one output line
 per case.  Core Lean only (so it links as an executable).
@@ -8,6 +10,9 @@ open HT
 def dispatch (line : String) : String :=
   match words line with
   | "dec" :: args => Dec.driver args
+  | "pkt" :: args => Pkt.driver args
+  | "can" :: args => Can.driver args
+  | "canloop" :: args => Can.loopDriver args
   | _ => "bad-model"
 
 partial def loop (h : IO.FS.Stream) (out : IO.FS.Stream) : IO Unit := do
